@@ -50,6 +50,69 @@ pub(crate) struct Index(pub usize);
 #[derive(Copy, Clone, Debug, Ord, PartialOrd, Eq, PartialEq)]
 pub(crate) struct Position(pub usize);
 
+/// Guard used while sifting an element up the heap with the "moving hole" technique.
+///
+/// While the hole exists, the heap position `position` does not contain the element
+/// `map_position` yet. When the guard is dropped (at the end of the sift-up, or while
+/// unwinding from a panic in a user provided `Ord::cmp`) the element is written into the
+/// hole, so that `heap` and `qp` are always left consistent with each other.
+pub(crate) struct Hole<'a> {
+    heap: &'a mut [Index],
+    qp: &'a mut [Position],
+    pub position: Position,
+    map_position: Index,
+}
+
+impl<'a> Hole<'a> {
+    #[inline(always)]
+    pub fn new(
+        heap: &'a mut [Index],
+        qp: &'a mut [Position],
+        position: Position,
+        map_position: Index,
+    ) -> Self {
+        Hole {
+            heap,
+            qp,
+            position,
+            map_position,
+        }
+    }
+
+    /// Returns the index of the element in position `position`
+    ///
+    /// # Safety
+    /// `position` must be a valid position of the heap
+    #[inline(always)]
+    pub unsafe fn index_at(&self, position: Position) -> Index {
+        unsafe { *self.heap.get_unchecked(position.0) }
+    }
+
+    /// Moves the element `index`, that is in position `from`, into the hole.
+    /// The hole moves to `from`.
+    ///
+    /// # Safety
+    /// `index` must be the index stored in the heap at the valid position `from`
+    #[inline(always)]
+    pub unsafe fn move_from(&mut self, from: Position, index: Index) {
+        unsafe {
+            *self.heap.get_unchecked_mut(self.position.0) = index;
+            *self.qp.get_unchecked_mut(index.0) = self.position;
+        }
+        self.position = from;
+    }
+}
+
+impl Drop for Hole<'_> {
+    #[inline(always)]
+    fn drop(&mut self) {
+        unsafe {
+            *self.heap.get_unchecked_mut(self.position.0) = self.map_position;
+            *self.qp.get_unchecked_mut(self.map_position.0) = self.position;
+        }
+    }
+}
+
 /// Internal storage of PriorityQueue and DoublePriorityQueue
 #[derive(Clone)]
 #[cfg(feature = "std")]
